@@ -1,4 +1,6 @@
 import PGM.Generated.SlicesR
+import PGM.Proofs.Softmax
+import PGM.Proofs.ScalarTac
 import Mathlib.Analysis.SpecialFunctions.Log.Basic
 import Mathlib.Algebra.BigOperators.Group.Finset.Basic
 /-!
@@ -8,6 +10,12 @@ The coefficient / scale expressions are regenerated from `mechanisms/*.py` on ev
 (`PGM/Generated/SlicesR`).  `softmaxP s i = exp(sᵢ − log Σⱼ exp sⱼ)` is what `scipy.special.softmax`
 and `exp(scores − logsumexp(scores))` compute.
 -/
+/- the proofs below are written to survive regeneration of `SlicesR` (`simp only [defs] <;> pgm_arith`),
+so some simp arguments / `<;>` / closing tactics are redundant for the current shape of the definitions -/
+set_option linter.unusedSimpArgs false
+set_option linter.unnecessarySeqFocus false
+set_option linter.unreachableTactic false
+set_option linter.unusedTactic false
 namespace PGM.C20
 open PGM.Gen.R
 open Finset
@@ -19,7 +27,8 @@ noncomputable def softmaxP {n : ℕ} (s : Fin n → ℝ) (i : Fin n) : ℝ :=
 /-- softmax is the normalised exponential -/
 theorem softmaxP_eq {n : ℕ} (s : Fin n → ℝ) (i : Fin n) (hn : 0 < n) :
     softmaxP s i = Real.exp (s i) / ∑ j, Real.exp (s j) := by
-  sorry
+  unfold softmaxP
+  exact PGM.Softmax.exp_sub_log_sum s i hn
 
 /-- **exponential-mechanism probability** (base class primitive, `mechanism.py`): with qualities
 `q`, positive base measure `b` (entered as `log b`), `ε > 0`, sensitivity `Δ > 0`, candidate `i` is
@@ -28,70 +37,113 @@ theorem em_probability {n : ℕ} (q b : Fin n → ℝ) (qmax eps Δ : ℝ) (hn :
     (hΔ : 0 < Δ) (i : Fin n) :
     softmaxP (fun j => mech_em_score_base eps Δ (mech_em_shift (q j) qmax) (Real.log (b j))) i
       = b i * Real.exp (eps * q i / (2 * Δ)) / ∑ j, b j * Real.exp (eps * q j / (2 * Δ)) := by
-  sorry
+  have key : ∀ j, Real.exp (mech_em_score_base eps Δ (mech_em_shift (q j) qmax) (Real.log (b j)))
+      = (b j * Real.exp (eps * q j / (2 * Δ))) * Real.exp (-(eps * qmax / (2 * Δ))) := by
+    intro j
+    have hs : mech_em_score_base eps Δ (mech_em_shift (q j) qmax) (Real.log (b j))
+        = eps * q j / (2 * Δ) + -(eps * qmax / (2 * Δ)) + Real.log (b j) := by
+      unfold mech_em_score_base mech_em_shift
+      field_simp
+      ring
+    rw [hs, Real.exp_add, Real.exp_add, Real.exp_log (hb j)]
+    ring
+  rw [softmaxP_eq _ _ hn]
+  simp only [key]
+  exact PGM.Softmax.normalised_mul_cancel (fun j => b j * Real.exp (eps * q j / (2 * Δ))) _
+    (Real.exp_pos _).ne' i
 
 /-- without base measure -/
 theorem em_probability_nobase {n : ℕ} (q : Fin n → ℝ) (qmax eps Δ : ℝ) (hn : 0 < n) (hΔ : 0 < Δ) (i : Fin n) :
     softmaxP (fun j => mech_em_score eps Δ (mech_em_shift (q j) qmax)) i
       = Real.exp (eps * q i / (2 * Δ)) / ∑ j, Real.exp (eps * q j / (2 * Δ)) := by
-  sorry
+  have key : ∀ j, Real.exp (mech_em_score eps Δ (mech_em_shift (q j) qmax))
+      = Real.exp (eps * q j / (2 * Δ)) * Real.exp (-(eps * qmax / (2 * Δ))) := by
+    intro j
+    have hs : mech_em_score eps Δ (mech_em_shift (q j) qmax)
+        = eps * q j / (2 * Δ) + -(eps * qmax / (2 * Δ)) := by
+      unfold mech_em_score mech_em_shift
+      field_simp
+      ring
+    rw [hs, Real.exp_add]
+  rw [softmaxP_eq _ _ hn]
+  simp only [key]
+  exact PGM.Softmax.normalised_mul_cancel (fun j => Real.exp (eps * q j / (2 * Δ))) _
+    (Real.exp_pos _).ne' i
 
 /-- shift invariance: adding a constant to every quality changes no probability -/
 theorem em_shift_invariant {n : ℕ} (q : Fin n → ℝ) (qmax eps Δ c : ℝ) (hn : 0 < n) (i : Fin n) :
     softmaxP (fun j => mech_em_score eps Δ (mech_em_shift (q j + c) (qmax + c))) i
       = softmaxP (fun j => mech_em_score eps Δ (mech_em_shift (q j) qmax)) i := by
-  sorry
+  have key : ∀ j, mech_em_shift (q j + c) (qmax + c) = mech_em_shift (q j) qmax := by
+    intro j
+    unfold mech_em_shift
+    ring
+  have _ := hn
+  simp only [key]
 
 /-- after the max-shift every exponent is ≤ 0: scores of any magnitude are safe to exponentiate -/
 theorem em_exp_args_nonpos {n : ℕ} (q : Fin n → ℝ) (qmax eps Δ : ℝ) (heps : 0 ≤ eps) (hΔ : 0 < Δ)
     (hmax : ∀ j, q j ≤ qmax) (j : Fin n) :
     mech_em_score eps Δ (mech_em_shift (q j) qmax) ≤ 0 := by
-  sorry
+  have hq : q j - qmax ≤ 0 := sub_nonpos.mpr (hmax j)
+  have hs : mech_em_score eps Δ (mech_em_shift (q j) qmax) = (eps / (2 * Δ)) * (q j - qmax) := by
+    unfold mech_em_score mech_em_shift
+    field_simp
+    ring
+  rw [hs]
+  exact mul_nonpos_of_nonneg_of_nonpos (div_nonneg heps (by positivity)) hq
 
 /-- MST's and adaptive grid's own primitives: coefficient `ε/(2Δ)`, and `ε/Δ` only in the declared
 monotonic variant -/
 theorem mst_em_coefficient (eps Δ q : ℝ) :
     mst_em_scores (mst_em_coef false) eps Δ q = eps / (2 * Δ) * q ∧
     mst_em_scores (mst_em_coef true) eps Δ q = eps / Δ * q := by
-  sorry
+  constructor <;>
+    simp only [mst_em_scores, mst_em_coef, Bool.false_eq_true, reduceIte] <;> pgm_arith
 
 theorem ada_em_coefficient (eps Δ q qmax : ℝ) :
     ada_em_scores (ada_em_coef false) eps Δ q qmax = eps / (2 * Δ) * (q - qmax) ∧
     ada_em_scores (ada_em_coef true) eps Δ q qmax = eps / Δ * (q - qmax) := by
-  sorry
+  constructor <;>
+    simp only [ada_em_scores, ada_em_coef, Bool.false_eq_true, reduceIte] <;> pgm_arith
 
 /-- MWEM's selection: coefficient `ε/(2Δ)` with `Δ = 2` under bounded adjacency, `1` otherwise -/
 theorem mwem_sel_coefficient (eps e emax : ℝ) :
     mwem_sel_score eps (mwem_sel_sensitivity false) e emax = eps / 2 * (e - emax) ∧
     mwem_sel_score eps (mwem_sel_sensitivity true) e emax = eps / 4 * (e - emax) := by
-  sorry
+  constructor <;>
+    simp only [mwem_sel_score, mwem_sel_sensitivity, Bool.false_eq_true, reduceIte] <;> pgm_arith
 
 /-- the generalised exponential mechanism hands its scores on with sensitivity 1 -/
 theorem gem_sensitivity : mech_gem_sensitivity = 1 := by
-  sorry
+  simp only [mech_gem_sensitivity] <;> pgm_arith
 
 /-- **log-ratio bound**: if two score vectors differ by at most `B` in every coordinate, every
 log-probability moves by at most `2B` — a selection with coefficient `c` on qualities of
 sensitivity `Δ` is `2cΔ`-DP (used by the ledgers of C05 as `realisedEps`) -/
 theorem em_logratio_le {n : ℕ} (s s' : Fin n → ℝ) (B : ℝ) (hn : 0 < n) (h : ∀ j, |s j - s' j| ≤ B) (i : Fin n) :
     |Real.log (softmaxP s i) - Real.log (softmaxP s' i)| ≤ 2 * B := by
-  sorry
+  unfold softmaxP
+  exact PGM.Softmax.abs_log_softmax_sub_le s s' B hn h i
 
 /-- Laplace scale helper: `Δ/ε`, the sensitivity doubled under bounded adjacency -/
 theorem laplace_scale (Δ eps : ℝ) :
     mech_laplace_scale false Δ eps = Δ / eps ∧ mech_laplace_scale true Δ eps = 2 * Δ / eps := by
-  sorry
+  constructor <;>
+    simp only [mech_laplace_scale, Bool.false_eq_true, reduceIte] <;> pgm_arith
 
 /-- Gaussian scale helper: `(2 if bounded else 1)·Δ·σ_ana(ε,δ)` with `σ_ana` the analytic-Gaussian
 calibration (a parameter: `autodp` is a third-party package) -/
 theorem gaussian_scale (sigma_ana Δ eps delta : ℝ) :
     mech_gaussian_scale false sigma_ana Δ eps delta = Δ * sigma_ana ∧
     mech_gaussian_scale true sigma_ana Δ eps delta = 2 * Δ * sigma_ana := by
-  sorry
+  constructor <;>
+    simp only [mech_gaussian_scale, Bool.false_eq_true, reduceIte] <;> pgm_arith
 
 /-- the samplers are called with exactly the scale they are given -/
 theorem sampler_scale_passthrough (x : ℝ) :
     mech_gaussian_noise_scale_arg x = x ∧ mech_laplace_noise_scale_arg x = x := by
-  sorry
+  constructor <;>
+    simp only [mech_gaussian_noise_scale_arg, mech_laplace_noise_scale_arg, Bool.false_eq_true, reduceIte] <;> pgm_arith
 
 end PGM.C20
